@@ -39,7 +39,7 @@ m = {
                  "kind_free_text": "Lean 4 (core only) executable model + kernel-checked theorems; Go differential harness compiled into /repo's module via -overlay; go/ast fact extractor regenerating Gen/Facts.lean"}],
     "checks": checks,
     "not_applicable": na,
-    "notes": "See DESIGN.md. known_findings.jsonl lists recorded findings and fixed defects.",
+    "notes": "See DESIGN.md. known_findings.txt lists recorded findings and fixed defects.",
 }
 json.dump(m, open(os.path.join(V, "MANIFEST.json"), "w"), indent=1)
 print("MANIFEST.json: %d checks, %d not_applicable" % (len(checks), len(na)))
